@@ -338,3 +338,68 @@ func derivedThrough(s *Seg, v ssa.Value, full string, d int) bool {
 	}
 	return false
 }
+
+// deferClobbersError reports the deferred closure literals of fn that assign the function's error result
+// on a path that has not established that the result is still nil: `defer func() { err = f.Close() }()`
+// replaces the error the body returned (a read fault, a parse error) by the nil result of Close.
+func deferClobbersError(p *Prog, fn *ssa.Function) []string {
+	// result cells: allocs loaded by a return
+	cells := map[*ssa.Alloc]bool{}
+	for _, b := range fn.Blocks {
+		for _, in := range b.Instrs {
+			if ret, ok := in.(*ssa.Return); ok {
+				for _, rv := range ret.Results {
+					if u, isU := rv.(*ssa.UnOp); isU && u.Op == token.MUL {
+						if a, isA := u.X.(*ssa.Alloc); isA && isErrorType(a.Type().Underlying().(*types.Pointer).Elem()) {
+							cells[a] = true
+						}
+					}
+				}
+			}
+		}
+	}
+	if len(cells) == 0 {
+		return nil
+	}
+	var out []string
+	for _, d := range Deferred(fn) {
+		cl := StaticCallee(&d.Call)
+		if cl == nil || cl.Parent() != fn {
+			continue
+		}
+		for _, s := range Paths(cl).Segs {
+			for _, e := range s.Events {
+				if e.Kind != EvStore {
+					continue
+				}
+				fv, isFV := e.Addr.(*ssa.FreeVar)
+				if !isFV {
+					continue
+				}
+				a, isA := BindingOf(fv).(*ssa.Alloc)
+				if !isA || !cells[a] {
+					continue
+				}
+				// is the cell known to be nil before this store on the path?
+				known := false
+				for _, f := range s.Facts {
+					bo, isB := f.Cond.(*ssa.BinOp)
+					if !isB || f.Ord > e.Ord {
+						continue
+					}
+					for _, pair := range [][2]ssa.Value{{bo.X, bo.Y}, {bo.Y, bo.X}} {
+						if u, isU := pair[0].(*ssa.UnOp); isU && u.X == ssa.Value(fv) && isNilConst(pair[1]) {
+							if (bo.Op == token.EQL) == f.Truth {
+								known = true
+							}
+						}
+					}
+				}
+				if !known {
+					out = append(out, "deferred literal assigns "+fv.Name()+" at "+p.Pos(e.Instr.Pos())+" without testing that it is still nil")
+				}
+			}
+		}
+	}
+	return out
+}
